@@ -9,7 +9,6 @@ import (
 	"time"
 
 	"net/http"
-	"net/netip"
 
 	"github.com/pkg/errors"
 	"github.com/ysugimoto/falco/v2/interpreter/context"
@@ -125,13 +124,11 @@ func (v *DeliverScopeVariables) Get(s context.Scope, name string) (value.Value, 
 	case REQ_ESI_LEVEL:
 		return v.ctx.ESILevel, nil
 	case REQ_IS_IPV6:
-		parsed, err := netip.ParseAddr(v.ctx.Request.RemoteAddr)
+		is6, err := isRemoteAddrIPv6(v.ctx.Request.RemoteAddr)
 		if err != nil {
-			return value.Null, errors.WithStack(fmt.Errorf(
-				"could not parse remote address",
-			))
+			return value.Null, errors.WithStack(err)
 		}
-		return &value.Boolean{Value: parsed.Is6()}, nil
+		return &value.Boolean{Value: is6}, nil
 
 	case REQ_IS_PURGE:
 		return &value.Boolean{Value: v.ctx.Request.Method == PURGE}, nil
